@@ -2,7 +2,7 @@
    Chunk level (this file, growing): every proper prefix of a serialised chunk reads as
    UnexpectedEof — never a success, never a panic; a chunk that was completely written reads back
    exactly. *)
-From PNA Require Import Base Crc32 Chunk BaseFacts ChunkFacts.
+From PNA Require Import Base Crc32 Codec Chunk Archive Entry BaseFacts ChunkFacts ArchiveFacts EntryFacts.
 Open Scope N_scope.
 
 Theorem C06_truncated_chunk_is_eof :
@@ -22,3 +22,37 @@ Print Assumptions C06_complete_chunk_reads_back.
 Theorem C06_slice_reader_same : forall bs, read_chunk_slice bs = read_chunk_stream bs.
 Proof. exact read_chunk_slice_eq. Qed.
 Print Assumptions C06_slice_reader_same.
+
+(* ---- archive level ------------------------------------------------------------------------
+   every proper prefix of every archive the writer model produces reads as an error (UnexpectedEof),
+   never as success, and the entries returned before it are exactly the completely written ones *)
+Theorem C06_truncation :
+  forall num es n, Forall wf_entry es -> num < 2 ^ 32 ->
+  (n < length (write_raw_archive num es))%nat ->
+  match raw_entries read_chunk_stream (firstn n (write_raw_archive num es)) with
+  | Err UnexpectedEof => (n < 28)%nat
+  | Ok (got, FinErr UnexpectedEof, _) => (28 <= n)%nat /\ got = firstn (entries_complete_within num es n) es
+  | _ => False
+  end.
+Proof. exact truncation. Qed.
+Print Assumptions C06_truncation.
+
+(* a completely written archive reads back completely and ends Ok *)
+Theorem C06_complete_archive_reads_back :
+  forall num es, num < 2 ^ 32 -> Forall wf_entry es ->
+  raw_entries read_chunk_stream (write_raw_archive num es) =
+  Ok (es, FinOk, {| r_rest := []; r_buf := []; r_next := false;
+                    r_hdr := {| a_major := 0; a_minor := 0; a_number := num |} |}).
+Proof. exact read_written. Qed.
+Print Assumptions C06_complete_archive_reads_back.
+
+Theorem C06_all_readers_same :
+  forall bs, (raw_entries read_chunk_slice bs = raw_entries read_chunk_stream bs /\ chunks_slice bs = chunks_stream bs)
+             /\ entries read_chunk_slice bs = entries read_chunk_stream bs.
+Proof. exact (fun bs => conj (stream_slice_agree bs) (entries_stream_slice_agree bs)). Qed.
+Print Assumptions C06_all_readers_same.
+
+Theorem C06_part_chain_readers_same :
+  forall parts, read_parts read_chunk_slice parts = read_parts read_chunk_stream parts.
+Proof. exact stream_slice_agree_parts. Qed.
+Print Assumptions C06_part_chain_readers_same.
